@@ -46,6 +46,13 @@ def store_sequence(rng, kind, tmpd, length):
         return (st.RedisListStore if listy else st.RedisDictStore)("redis://localhost:6379", "pfx", cache_size=4)
     if kind.startswith("redis"):
         fake_redis.install()
+        # the server is shared: other stores (other key prefixes, as the engine's three stores have) hold keys on it too,
+        # so that a SCAN page can hold no key of the store under test although later pages do
+        fake_redis.new_client(st)
+        for pfx in ("aaa", "zzz"):
+            other = st.RedisDictStore("redis://localhost:6379", pfx, cache_size=4)
+            for i in range(rng.randrange(0, 6)):
+                other["n%d" % i] = {"x": i}
     store = open_store()
     steps, raw = [], []
     for _ in range(length):
